@@ -63,6 +63,8 @@ def gen(rng, n):
             out.append(S.gen_headkey_case(rng))
         elif g < 0.81:
             out.append(S.gen_fallback_case(rng))
+        elif g < 0.87:
+            out.append(S.gen_woken_holder_case(rng))
         else:
             out.append(S.gen_chain_case(rng))
     return out
